@@ -37,8 +37,8 @@ func (x *exec) doCall(s *State, cc *ssa.CallCommon, pos token.Pos, instr ssa.Ins
 			}
 		}
 		key := invokeKey(cc)
-		if blk := e.P.Contracts[key]; blk != nil {
-			return x.applyContract(s, blk, nil, append([]Value{recv}, args...), pos, key, cc.Signature())
+		if blk, k2 := x.lookupContract(key); blk != nil {
+			return x.applyContract(s, blk, nil, append([]Value{recv}, args...), pos, k2, cc.Signature())
 		}
 		return x.defaultCall(s, key, append([]Value{recv}, args...), cc.Signature(), pos)
 	}
@@ -95,8 +95,8 @@ func (x *exec) callFunc(s *State, fn *ssa.Function, args []Value, bind []Value, 
 	if h, ok := natives[key]; ok {
 		return h(x, s, fn, args, pos)
 	}
-	if blk := e.P.Contracts[key]; blk != nil && !blk.Has("inline") {
-		return x.applyContract(s, blk, fn, args, pos, key, fn.Signature)
+	if blk, k2 := x.lookupContract(key); blk != nil && !blk.Has("inline") {
+		return x.applyContract(s, blk, fn, args, pos, k2, fn.Signature)
 	}
 	if fn.Blocks != nil && x.depth < e.MaxInline && e.P.PkgOf(fn) != nil && strings.HasPrefix(e.P.PkgOf(fn).PkgPath, ModPath) {
 		if blk := e.P.Contracts[key]; blk != nil || inlinable(fn) {
@@ -104,6 +104,27 @@ func (x *exec) callFunc(s *State, fn *ssa.Function, args []Value, bind []Value, 
 		}
 	}
 	return x.defaultCall(s, key, args, fn.Signature, pos)
+}
+
+// lookupContract finds the contract of callee key: a package-local assumed
+// contract of the calling package takes precedence over the global one.
+func (x *exec) lookupContract(key string) (*Block, string) {
+	e := x.e
+	if pk := e.P.PkgOf(x.fn); pk != nil {
+		k2 := pk.PkgPath + "|" + key
+		if blk := e.P.Contracts[k2]; blk != nil {
+			return blk, k2
+		}
+	}
+	if t := x.topExec(); t != x {
+		if pk := e.P.PkgOf(t.fn); pk != nil {
+			k2 := pk.PkgPath + "|" + key
+			if blk := e.P.Contracts[k2]; blk != nil {
+				return blk, k2
+			}
+		}
+	}
+	return e.P.Contracts[key], key
 }
 
 // inlinable: small loop-free functions.
@@ -180,7 +201,12 @@ func (x *exec) defaultCall(s *State, key string, args []Value, sig *types.Signat
 	for _, a := range args {
 		x.havocReachable(s, a)
 	}
-	s.alloc = e.C.Fresh("alloc.ext", Int)
+	before := s.alloc
+	na := e.C.Fresh("alloc.ext", Int)
+	na.AddFact(e.C.Le(s.alloc, na))
+	s.alloc = na
+	x.noteAlloc(s, pos, "call:"+calleeShort(key))
+	s.alloc = before
 	var vals []Value
 	for i := 0; i < sig.Results().Len(); i++ {
 		vals = append(vals, e.fresh(sig.Results().At(i).Type(), "ext:"+key, s))
@@ -253,7 +279,12 @@ func (x *exec) callbackCall(s *State, fv Value, args []Value, res *types.Tuple, 
 		}
 		s.heap[key] = e.C.Fresh("cb.H:"+key, so)
 	}
-	s.alloc = e.C.Fresh("alloc.cb", Int)
+	before := s.alloc
+	na := e.C.Fresh("alloc.cb", Int)
+	na.AddFact(e.C.Le(s.alloc, na))
+	s.alloc = na
+	x.noteAlloc(s, pos, "callback")
+	s.alloc = before
 	var vals []Value
 	for i := 0; i < res.Len(); i++ {
 		vals = append(vals, e.fresh(res.At(i).Type(), "cb", s))
@@ -426,26 +457,17 @@ func (x *exec) copyElems(s *State, el types.Type, dArr, dOff, sArr, sOff, n *Ter
 func (x *exec) copyStructElems(s *State, el types.Type, dArr, dOff, sArr, sOff, n *Term) {
 	e := x.e
 	c := e.C
-	st := structOf(el)
-	e.ensureElemAxioms()
-	for i := 0; i < st.NumFields(); i++ {
-		ft := st.Field(i).Type()
-		ls := e.leavesOf(ft)
-		if ls == nil {
-			e.unsupported("copy of structs with field type %s", ft)
-		}
-		for _, l := range ls {
-			key := fieldKey(el, i) + l.comp
-			h := e.heapGet(s, key, Array(Int, l.sort))
-			nh := c.Fresh("Hc:"+key, Array(Int, l.sort))
-			r := c.BoundVar("r", Int)
-			idx := c.App("elemIdx", Int, r)
-			isDst := c.And(c.Eq(c.App("elemArr", Int, r), dArr), c.Eq(c.App("elem", Int, dArr, idx), r), c.Le(dOff, idx), c.Lt(idx, c.Add(dOff, n)))
-			src := c.Select(h, c.App("elem", Int, sArr, c.Add(sOff, c.Sub(idx, dOff))))
-			body := c.Eq(c.Select(nh, r), c.Ite(isDst, src, c.Select(h, r)))
-			nh.AddFact(c.Quant("forall", []*Term{r}, body, [][]*Term{{c.Select(nh, r)}}))
-			e.heapSet(s, key, nh)
-		}
+	for _, lp := range e.structLeaves(el) {
+		h := e.heapGet(s, lp.key, Array(Int, lp.sort))
+		nh := c.Fresh("Hc:"+lp.key, Array(Int, lp.sort))
+		r := c.BoundVar("r", Int)
+		er := lp.unmk(r)
+		idx := c.App("elemIdx", Int, er)
+		isDst := c.And(lp.ok(r), e.isElemOf(er, dArr, dOff, c.Add(dOff, n)))
+		src := c.Select(h, lp.mk(c.App("elem", Int, sArr, c.Add(sOff, c.Sub(idx, dOff)))))
+		sel := c.Select(nh, r)
+		nh.AddFact(c.Quant("forall", []*Term{r}, c.Eq(sel, c.Ite(isDst, src, c.Select(h, r))), [][]*Term{{sel}}))
+		e.heapSet(s, lp.key, nh)
 	}
 }
 
@@ -524,6 +546,7 @@ func (x *exec) doAppend(s *State, args []Value, cc *ssa.CallCommon, pos token.Po
 	}
 	s.next = c.Ite(fits, sIn.next, sGrow.next)
 	s.alloc = c.Ite(fits, sIn.alloc, sGrow.alloc)
+	x.noteAlloc(s, pos, "append")
 	// appending nothing to nil gives nil
 	res := SliceV{
 		Arr: c.Ite(fits, base.Arr, arr),
@@ -597,7 +620,6 @@ func (x *exec) runDefers(s *State) {
 }
 
 func (x *exec) doGo(s *State, g *ssa.Go) {
-	e := x.e
 	cc := g.Call
 	var args []Value
 	for _, a := range cc.Args {
@@ -617,9 +639,9 @@ func (x *exec) doGo(s *State, g *ssa.Go) {
 		return
 	}
 	key := FuncKey(fn)
-	if blk := e.P.Contracts[key]; blk != nil {
+	if blk, k2 := x.lookupContract(key); blk != nil {
 		// only the preconditions are checked at the spawn point
-		x.checkPre(s, blk, fn, args, g.Pos(), key, fn.Signature)
+		x.checkPre(s, blk, fn, args, g.Pos(), k2, fn.Signature)
 	}
 }
 
